@@ -172,6 +172,7 @@ structure Mon where
   which : String := ""
   prev : Option Snap2 := none
   nobuild : List Nat := []                -- servers whose transport cannot be created right now (op `nobuild`)
+  boff : Nat := 0                         -- first server of authority "b"'s own list
   ghosts : List (Nat × WG) := []
   accepted : List (Key × String) := []   -- contents some delivered response carried as valid
   held : Bool := false
@@ -179,8 +180,8 @@ structure Mon where
   heldPure : Bool := true                                    -- nothing but such responses happened meanwhile
 deriving Repr
 
-def Mon.start (n : Nat) (ign : List Bool) (which : String) : Mon :=
-  { n := n, ign := ign, which := which,
+def Mon.start (n : Nat) (ign : List Bool) (which : String) (boff : Nat := 0) : Mon :=
+  { n := n, ign := ign, which := which, boff := boff,
     prev :=
       let e : Snap := { cbs := [], act := none, srv := List.replicate n { builds := 0, streams := 0, state := "closed", flags := "", view := [] }, res := [] }
       some { top := e, b := e } }
@@ -255,8 +256,9 @@ def checkC43 (m : Mon) (x : Nat) (fs : List String) (pre post : Snap) (accepted 
       | none => none
       | some w =>
         -- (no channel yet and the one to server 0 cannot be created: the watch fails with an error)
-        let cannotStart : Bool := pre.act.isNone && m.nobuild.contains 0 &&
-          ((pre.srv[0]?.map (·.state)).getD "closed" == "closed")
+        let first := if x = 0 then 0 else m.boff      -- the first server of this authority's list
+        let cannotStart : Bool := pre.act.isNone && m.nobuild.contains first &&
+          ((pre.srv[first]?.map (·.state)).getD "closed" == "closed")
         let want := if cannotStart then [CbKind.resErr .other] else
           match resOfKey pre ⟨t, name⟩ with | some r => expectInitial r | none => []
         -- the first watch also creates the channel: its stream may fail within the same step, so more
@@ -349,6 +351,8 @@ def checkC44 (m : Mon) (x : Nat) (fs : List String) (pre post : Snap) : Option S
           some s!"VIOL fallback from server {a} to {b} although the stream of the active server {a} had not failed"
         else if strictTrigger then
           (List.range b).findSome? fun h =>
+            -- (only servers of this authority's own list that it holds a channel to)
+            if decide (h < (if x = 0 then 0 else m.boff)) || !(openOf post).contains h then none else
             match post.srv[h]? with
             | some s => if s.state = "live" ∧ (s.flags.drop 1).startsWith "m" then
                 some s!"VIOL fallback to server {b} although higher-priority server {h} has a working stream that delivered a response"
